@@ -48,6 +48,7 @@ def run(rep, tier, seed, replay=None):
     import importlib
     cases, meta = [], {}
     units_desc = []
+    plan_requests = []   # families with a SPEC-level faulty script (whole-query C10 theorems): driver requests
     for fam in netprops.FAMILIES:
         fmod = importlib.import_module("props.families." + fam)
         if not hasattr(fmod, "c10_build"):
@@ -74,6 +75,22 @@ def run(rep, tier, seed, replay=None):
                         cid = f"{b.id}u{unit}r{r}{v}"
                         cases.append(fmod.c10_build(b, unit, v, r, cid))
                         meta[cid] = (b, unit, v, r, fmod)
+                        if hasattr(fmod, "c10_plan_request"):
+                            req = fmod.c10_plan_request(b, unit, v, r)
+                            if req:
+                                plan_requests.append(f"{cid} {req}")
+
+    # the same cases as the SPEC's plan scripts (the scripts the whole-query theorems C10_<family>_query_* speak about):
+    # the line built here must BE the line the SPEC builds, and carries the prescribed outcome and sends
+    spec = {}
+    built = {c.split(" ", 1)[0]: c.split(" ", 1)[1] for c in cases}
+    for cid, out in vlib.run_model(plan_requests).items():
+        parts = out.split(" ## ")
+        tags = {}
+        for p in parts[1:]:
+            k, _, val = p.partition(" ")
+            tags[k] = val
+        spec[cid] = (parts[0], tags)
 
     def oracle(case, impl, model, panic):
         out = netprops.crash_oracle(case, impl, model, panic)
@@ -85,6 +102,21 @@ def run(rep, tier, seed, replay=None):
         attempts = fmod.c10_attempts(b, unit, vlib.sends_of(impl), want_res == "CLEAN")
         got = vlib.result_of(impl)
         rep.count(f"vector-class:{want_res.split(' ')[0]}")
+        if cid in spec:
+            line, tags = spec[cid]
+            if line != built[cid]:
+                out.append((f"spec-script:{b.fam}", f"unit {unit}, r={r}, vector {v}: the injected script is not the SPEC's plan script: {line[:160]}"))
+            elif tags.get("THM") == "1":
+                rep.count("theorem-domain:" + b.fam)
+                if got != tags.get("WANT"):
+                    out.append((f"retry-spec-result:{b.fam}", f"unit {unit}, r={r}, vector {v}: expected {tags.get('WANT', '')[:120]}, got {got[:200]}"))
+                sent = ",".join(d + ("!" if failed else "") for (_, _, d, failed) in vlib.sends_of(impl))
+                if sent != tags.get("SENT"):
+                    out.append((f"retry-spec-sends:{b.fam}", f"unit {unit}, r={r}, vector {v}: sends differ from the plan's: {sent[:200]}"))
+                if "ATT" in tags and str(attempts) != tags["ATT"] and want_attempts == attempts:
+                    out.append((f"retry-spec-attempts:{b.fam}", f"unit {unit}, r={r}, vector {v}: {attempts} attempts, the plan has {tags['ATT']}"))
+            else:
+                rep.count("outside-theorem-domain:" + b.fam)
         if attempts != want_attempts:
             out.append((f"retry-attempts:{b.fam}", f"unit {unit}, r={r}, vector {v}: {attempts} attempts on the wire, expected {want_attempts}"))
         if want_res == "CLEAN":
